@@ -16,12 +16,30 @@ from pyresample import _spatial_mp, geometry, kd_tree  # noqa: E402
 req = json.load(sys.stdin)
 
 
+def relayout(a, how):
+    """Same logical array, different memory layout (no model logic: numpy views / copies only)."""
+    a = np.asarray(a)
+    if how in (None, "C") or a.ndim == 0:
+        return a
+    if how == "F":
+        return np.asfortranarray(a)
+    if how == "T":                                   # transposed view of a C buffer holding the transpose
+        return np.ascontiguousarray(a.T).T
+    if how == "neg":                                 # negative strides along every axis
+        rev = tuple(slice(None, None, -1) for _ in range(a.ndim))
+        return np.ascontiguousarray(a[rev])[rev]
+    if how == "strided":                             # every second row of a twice as long buffer
+        big = np.repeat(a, 2, axis=0)
+        return big[::2]
+    raise ValueError(how)
+
+
 def mk_geo(g):
     kind = g["kind"]
     if kind in ("swath", "grid", "coord"):
         dt = np.dtype(g.get("dtype", "float64"))
-        lons = np.array(g["lons"], dtype=dt).reshape(g["shape"])
-        lats = np.array(g["lats"], dtype=dt).reshape(g["shape"])
+        lons = relayout(np.array(g["lons"], dtype=dt).reshape(g["shape"]), g.get("mem"))
+        lats = relayout(np.array(g["lats"], dtype=dt).reshape(g["shape"]), g.get("mem"))
         if kind == "swath":
             return geometry.SwathDefinition(lons=lons, lats=lats)
         if kind == "grid":
@@ -37,7 +55,7 @@ def flt(a):
     return [float(x) for x in np.asarray(a, dtype=np.float64).ravel()]
 
 
-def mk_data(d, src_shape):
+def mk_data(d, src_shape, mem=None):
     dt = np.dtype(d["dtype"])
     k = d["k"]
     vals = np.array(d["values"], dtype=dt)          # (n, max(k,1))
@@ -48,8 +66,30 @@ def mk_data(d, src_shape):
         vals = vals.reshape(tuple(src_shape) + ((k,) if k else ()))
     if d.get("mask") is not None:
         m = np.array(d["mask"], dtype=bool).reshape(vals.shape)
-        vals = np.ma.array(vals, mask=m)
-    return vals
+        return np.ma.array(relayout(vals, mem), mask=relayout(m, mem))
+    return relayout(vals, mem)
+
+
+def snapshot(arrs):
+    out = []
+    for a in arrs:
+        if isinstance(a, np.ma.MaskedArray):
+            out.append((np.array(a.data, copy=True), np.array(np.ma.getmaskarray(a), copy=True)))
+        else:
+            out.append((np.array(a, copy=True), None))
+    return out
+
+
+def changed(arrs, snap, names):
+    bad = []
+    for a, (d0, m0), n in zip(arrs, snap, names):
+        d1 = a.data if isinstance(a, np.ma.MaskedArray) else np.asarray(a)
+        ok = d1.shape == d0.shape and d1.dtype == d0.dtype and np.array_equal(d1, d0, equal_nan=(d0.dtype.kind == "f"))
+        if ok and m0 is not None:
+            ok = np.array_equal(np.ma.getmaskarray(a), m0)
+        if not ok:
+            bad.append(n)
+    return bad
 
 
 def mk_fill(f, dtype):
@@ -85,7 +125,7 @@ def same(a, b):
 def run_case(c):
     src = mk_geo(c["src"])
     tgt = mk_geo(c["tgt"])
-    data = mk_data(c["data"], src.shape)
+    data = mk_data(c["data"], src.shape, c["data"].get("mem"))
     fill = mk_fill(c["fill"], c["data"]["dtype"])
     r = c["radius"]
     out = {}
@@ -163,8 +203,29 @@ def run_case(c):
         else:
             cs, sn = np.cos(args), np.sin(args)
         out["trig"] = [[float(a), float(b), float(d)] for a, b, d in zip(args, cs, sn)]
+    # ---- history: the neighbour info computed once is used for several get_sample_from_neighbour_info calls;
+    #      every argument must come back unchanged and every use must give what the first one gave
+    names = ["valid_input_index", "valid_output_index", "index_array", "distance_array", "data"]
+    args = [vii, voi, idx, dist, data]
+    snap = snapshot(args)
     res = kd_tree.get_sample_from_neighbour_info('nn', tgt.shape, data, vii, voi, idx, fill_value=fill)
     out["res"] = describe(res)
+    out["mutated"] = changed(args, snap, names)
+    res_b = kd_tree.get_sample_from_neighbour_info('nn', tgt.shape, data, vii, voi, idx, distance_array=dist, fill_value=fill)
+    res_c = kd_tree.get_sample_from_neighbour_info('nn', tgt.shape, data, vii, voi, idx, fill_value=fill)
+    out["mutated"] = sorted(set(out["mutated"]) | set(changed(args, snap, names)))
+    for tag, rr in (("second", res_b), ("third", res_c)):
+        if not same(res, rr):
+            out["reuse_differs"] = tag
+            out["res_reuse"] = describe(rr)
+            break
+    # ---- memory layout: the same logical arrays in C order must give the same result
+    if c["data"].get("mem") not in (None, "C") or c["src"].get("mem") not in (None, "C") or c["tgt"].get("mem") not in (None, "C"):
+        csrc = mk_geo(dict(c["src"], mem="C"))
+        ctgt = mk_geo(dict(c["tgt"], mem="C"))
+        cdata = mk_data(c["data"], csrc.shape, "C")
+        cres = kd_tree.resample_nearest(csrc, cdata, ctgt, r, epsilon=eps, fill_value=fill, reduce_data=False, nprocs=1, segments=1)
+        out["layout_same"] = same(res, cres)
     res2 = kd_tree.resample_nearest(src, data, tgt, r, epsilon=eps, fill_value=fill, reduce_data=False, nprocs=1,
                                     segments=1)
     out["direct_same"] = same(res, res2)
